@@ -771,6 +771,55 @@ func (p *asmProg) step(a *AbsState, ins *asmInstr, check bool) ([]*AbsState, err
 			out = append(out, r.a)
 		}
 		return out, nil
+	case "ADDL", "SUBL", "INCL", "DECL":
+		// 32-bit arithmetic: the result is taken modulo 2^32 and zero-extended. A wrap silently turns a huge
+		// length into a small one, so the absence of wrap-around is an obligation of its own (R04.8).
+		dst := args[len(args)-1]
+		x, err := p.read(a, ins, dst, 4, check)
+		if err != nil {
+			return nil, err
+		}
+		y := linI(1)
+		if len(args) == 2 {
+			if y, err = p.read(a, ins, args[0], 4, check); err != nil {
+				return nil, err
+			}
+		}
+		x, y = p.trunc(a, x, 32), p.trunc(a, y, 32)
+		sub := ins.op == "SUBL" || ins.op == "DECL"
+		m := x.Add(y)
+		if sub {
+			m = x.Sub(y)
+		}
+		fits := p.fits(a, m, 32)
+		if check {
+			p.coll.check("nowrap32", p.cs.String()+"|"+ins.site, p.pos(ins.line), "32-bit arithmetic on a length or position does not wrap around (a wrapped length passes the bounds checks and yields a short result without error)", fits, func() string {
+				return "the 32-bit result " + m.Str(p.tab) + " may leave [0, 2^32): the value wraps and the following bounds checks see a small number"
+			})
+		}
+		v := m
+		if !fits {
+			v = p.havoc(a, "wrap32", qi(0), qPow2(32).Sub(qi(1)))
+		}
+		if err := p.write(a, ins, dst, v, 4, check); err != nil {
+			return nil, err
+		}
+		if fits {
+			kind := "add"
+			if sub {
+				kind = "sub"
+			}
+			if len(args) == 2 {
+				p.setFlags(a, kind, x, y, "0")
+			} else {
+				a.meta["fk"] = "res"
+			}
+			a.vals["$fr"] = v
+		} else {
+			p.clobberFlags(a)
+			delete(a.vals, "$fr")
+		}
+		return one, nil
 	case "INCQ", "DECQ":
 		x, err := p.read(a, ins, args[0], 8, check)
 		if err != nil {
